@@ -161,7 +161,7 @@ def nat_old_style(h):
     # several condition objects naming the SAME field (a value list written as one object per value), end to end
     rows = [{'a': v, 'i': i} for i, v in enumerate([0, 1, 2, 3, 1, 0])]
     for eq, ne in (([{'a': 1}, {'a': 2}], []), ([], [{'a': 1}, {'a': 2}]), ([], [{'a': 1}, {'a': 1}]), ([{'a': 0}], [{'a': 0}, {'a': 3}]),
-                   ([], [{'a': 1}]), ([{'a': 1}, {'a': 1}], [])):
+                   ([], [{'a': 1}]), ([{'a': 1}, {'a': 1}], []), ([], []), ((), ())):
         want = [r['i'] for r in rows if any(r['a'] == o['a'] for o in eq) or any(r['a'] != o['a'] for o in ne)]
         got = h.run(lambda: [r['i'] for r in Flow([dict(r) for r in rows], filter_rows(equals=eq, not_equals=ne)).results(on_error=None)[0][0]])
         h.check(got[0] == 'ok' and got[1] == want, 'dataflows/processors/filter_rows.py::old_style_conditions.func', (eq, ne), want, got[:2])
@@ -178,6 +178,19 @@ def sym_filter_func(vc):
         return len(g.args) == 2 and g.args[0] is r and g.args[1] is cond
     dispatch_symbolic(vc, 'dataflows/processors/filter_rows.py', ['filter_rows', 'func'],
                       'dataflows.processors.filter_rows', 'filter_rows', maker_args, gen_of({'process_resource'}, arg_ok))
+    # no callable: the condition is the any-of over the two lists -- also when both are EMPTY (an any-of nothing satisfies: the selected
+    # resources come out empty, they are not passed through unfiltered) and for every truthiness of what is handed over
+    from pyvc.api import FuncDefV, sym_row
+
+    def maker_args2(it, sel):
+        return [], dict(equals=(), not_equals=(), resources=sel)
+
+    def arg_ok2(it, env, r, g):
+        c = g.args[1] if len(g.args) == 2 else None
+        return len(g.args) == 2 and g.args[0] is r and isinstance(c, FuncDefV) and 'old_style_conditions' in c.qualname and c.name == 'func'
+    dispatch_symbolic(vc, 'dataflows/processors/filter_rows.py', ['filter_rows', 'func'],
+                      'dataflows.processors.filter_rows', 'filter_rows', maker_args2, gen_of({'process_resource'}, arg_ok2),
+                      kinds=('none', 'list'))
     vc.under_contract('dataflows/helpers/resource_matcher.py', ['ResourceMatcher', '__init__'])
     vc.under_contract('dataflows/helpers/resource_matcher.py', ['ResourceMatcher', 'match'])
 
